@@ -622,3 +622,18 @@ package tchannel
 //@   label last-fragment-is-released-when-the-reader-finishes
 //@   ensures err == nil && old(r.state) == fragmentingReadInLastArgument ==> r.curFragment != nil && r.curFragment.isDone
 //@   property C12
+
+// A call req for a service the relay channel handles itself: a frame that is
+// NOT handled locally stays with the caller (who forwards or releases it); a
+// frame handled locally is released here only if the local dispatcher left it
+// (the dispatcher's own contract), i.e. at most once.
+//@ func (r *Relayer) handleLocalCallReq(cr *lazyCallReq) (shouldRelease bool)
+// (`inline`: verified on its own against this contract; callers still see the body)
+//@   inline
+//@   nosafety
+//@   requires LCR(cr) && own(cr.Frame) == 1 && r.conn != nil && r.logger != nil
+//@   requires ConnErrOK(r.conn) && MexSetFull(r.conn.outbound) && MexSetFull(r.conn.inbound) && DispatchOK(r.conn)
+//@   modifies all
+//@   label frame-not-handled-locally-stays-with-the-caller
+//@   ensures !shouldRelease ==> own(old(cr.Frame)) == 1
+//@   property C12
